@@ -7,17 +7,29 @@ import PvProofs.Lemmas.MdKMap
 namespace PvProofs.MdLemmas
 open PvModel.MdStore
 
+variable {B : Addr → Addr}
+
 /-- a scope with this id is stored -/
 def HasScope (st : State) (id : UUID) : Prop := ∃ sc ∈ st.scopes, sc.id = id
 
 /-! ### scope writes -/
 
+theorem mem_scopeIndexAddrs (sc : Scope) (b : Addr) : b ∈ scopeIndexAddrs B sc ↔ b ∈ Scope.accts B sc := by
+  simp only [scopeIndexAddrs, Scope.accts, Scope.addrs, List.mem_map, mem_dedup, List.mem_append]
+  constructor
+  · rintro ⟨a, ha | ha, rfl⟩
+    · exact ⟨a, Or.inr ha, rfl⟩
+    · exact ⟨a, Or.inl ha, rfl⟩
+  · rintro ⟨a, ha | ha, rfl⟩
+    · exact ⟨a, Or.inr ha, rfl⟩
+    · exact ⟨a, Or.inl ha, rfl⟩
+
 theorem optAddrs_kget {st : State} {id : UUID} (b : Addr) :
-    b ∈ optAddrs (kget (·.id) st.scopes id) ↔
-      ∃ o, kget (·.id) st.scopes id = some o ∧ b ∈ Scope.addrs o := by
+    b ∈ optAddrs B (kget (·.id) st.scopes id) ↔
+      ∃ o, kget (·.id) st.scopes id = some o ∧ b ∈ Scope.accts B o := by
   cases kget (·.id) st.scopes id with
   | none => simp [optAddrs]
-  | some o => simp [optAddrs, scopeIndexAddrs, Scope.addrs, or_comm]
+  | some o => simp [optAddrs, mem_scopeIndexAddrs]
 
 theorem optSpec_kget {st : State} {id : UUID} (b : UUID) :
     b ∈ optSpec (kget (·.id) st.scopes id) ↔
@@ -27,7 +39,7 @@ theorem optSpec_kget {st : State} {id : UUID} (b : UUID) :
   | some o => simp [optSpec]
 
 /-- `writeScopeToState`: all clauses that read scopes or the two scope indexes -/
-theorem writeScopeToState_inv {st : State} (h : Inv st) (sc : Scope) : Inv (writeScopeToState st sc) where
+theorem writeScopeToState_inv {st : State} (h : Inv B st) (sc : Scope) : Inv B (writeScopeToState B st sc) where
   keys := by
     obtain ⟨h1, h2, h3, h4, h5, h6, h7⟩ := h.keys
     exact ⟨nodup_kput sc h1, h2, h3, h4, h5, h6, h7⟩
@@ -38,9 +50,9 @@ theorem writeScopeToState_inv {st : State} (h : Inv st) (sc : Scope) : Inv (writ
     exact exists_key_kput.mpr (Or.inr ⟨y, hy, hyr⟩)
   recInScope := h.recInScope
   addrScope := by
-    have := idxExact_kput (key := fun s : Scope => s.id) (vals := Scope.addrs) h.keys.1 h.addrScope sc
-      (scopeIndexAddrs sc) (optAddrs (kget (·.id) st.scopes sc.id))
-      (by intro b; simp [scopeIndexAddrs, Scope.addrs, or_comm]) (fun b => optAddrs_kget b)
+    have := idxExact_kput (key := fun s : Scope => s.id) (vals := Scope.accts B) h.keys.1 h.addrScope sc
+      (scopeIndexAddrs B sc) (optAddrs B (kget (·.id) st.scopes sc.id))
+      (mem_scopeIndexAddrs sc) (fun b => optAddrs_kget b)
     exact this
   specScope := by
     have := idxExact_kput (key := fun s : Scope => s.id) (vals := fun s : Scope => [s.spec]) h.keys.1 h.specScope sc
@@ -61,25 +73,25 @@ theorem writeScopeToState_inv {st : State} (h : Inv st) (sc : Scope) : Inv (writ
 
 /-- the state `setScope` hands to `writeScopeToState` satisfies `Inv` except that the value owner
 and NAV entries of the scope being written may precede the scope itself -/
-structure InvPending (st : State) (id : UUID) : Prop where
+structure InvPending (B : Addr → Addr) (st : State) (id : UUID) : Prop where
   keys : KeysUnique st
   recSession : RecordsHaveSession st
   recScope : RecordsHaveScope st
   recInScope : RecordsInSessionScope st
-  addrScope : AddrScopeExact st
+  addrScope : AddrScopeExact B st
   specScope : SpecScopeExact st
-  ownerScopeSpec : OwnerScopeSpecExact st
+  ownerScopeSpec : OwnerScopeSpecSound B st
   cspecScopeSpec : CSpecScopeSpecExact st
-  ownerCSpec : OwnerCSpecExact st
+  ownerCSpec : OwnerCSpecSound B st
   voScope : ∀ p ∈ st.valueOwners, p.1 = id ∨ ∃ sc ∈ st.scopes, sc.id = p.1
   navScope : ∀ p ∈ st.navs, p.1 = id ∨ ∃ sc ∈ st.scopes, sc.id = p.1
 
-theorem inv_pending {st : State} (h : Inv st) (id : UUID) : InvPending st id :=
+theorem inv_pending {st : State} (h : Inv B st) (id : UUID) : InvPending B st id :=
   ⟨h.keys, h.recSession, h.recScope, h.recInScope, h.addrScope, h.specScope, h.ownerScopeSpec,
    h.cspecScopeSpec, h.ownerCSpec, fun p hp => Or.inr (h.voScope p hp), fun p hp => Or.inr (h.navScope p hp)⟩
 
-theorem writeScopeToState_pending {st : State} (sc : Scope) (h : InvPending st sc.id) :
-    Inv (writeScopeToState st sc) where
+theorem writeScopeToState_pending {st : State} (sc : Scope) (h : InvPending B st sc.id) :
+    Inv B (writeScopeToState B st sc) where
   keys := by
     obtain ⟨h1, h2, h3, h4, h5, h6, h7⟩ := h.keys
     exact ⟨nodup_kput sc h1, h2, h3, h4, h5, h6, h7⟩
@@ -90,9 +102,9 @@ theorem writeScopeToState_pending {st : State} (sc : Scope) (h : InvPending st s
     exact exists_key_kput.mpr (Or.inr ⟨y, hy, hyr⟩)
   recInScope := h.recInScope
   addrScope := by
-    have := idxExact_kput (key := fun s : Scope => s.id) (vals := Scope.addrs) h.keys.1 h.addrScope sc
-      (scopeIndexAddrs sc) (optAddrs (kget (·.id) st.scopes sc.id))
-      (by intro b; simp [scopeIndexAddrs, Scope.addrs, or_comm]) (fun b => optAddrs_kget b)
+    have := idxExact_kput (key := fun s : Scope => s.id) (vals := Scope.accts B) h.keys.1 h.addrScope sc
+      (scopeIndexAddrs B sc) (optAddrs B (kget (·.id) st.scopes sc.id))
+      (mem_scopeIndexAddrs sc) (fun b => optAddrs_kget b)
     exact this
   specScope := by
     have := idxExact_kput (key := fun s : Scope => s.id) (vals := fun s : Scope => [s.spec]) h.keys.1 h.specScope sc
@@ -113,8 +125,8 @@ theorem writeScopeToState_pending {st : State} (sc : Scope) (h : InvPending st s
     · exact exists_key_kput.mpr (Or.inl e)
     · exact exists_key_kput.mpr (Or.inr ⟨y, hy, hyr⟩)
 
-theorem pending_setNav {st : State} {id : UUID} (h : InvPending st id) (d : String) :
-    InvPending (setNetAssetValue st id d) id :=
+theorem pending_setNav {st : State} {id : UUID} (h : InvPending B st id) (d : String) :
+    InvPending B (setNetAssetValue st id d) id :=
   { h with
     navScope := by
       intro p hp
@@ -122,14 +134,16 @@ theorem pending_setNav {st : State} {id : UUID} (h : InvPending st id) (d : Stri
       · exact Or.inl rfl
       · exact h.navScope p hp' }
 
-theorem pending_setVO {st : State} {id : UUID} (h : InvPending st id) (a : Addr) (ha : a ≠ "") :
-    InvPending (setScopeValueOwner st id a) id := by
+theorem pending_setVO {st : State} {id : UUID} (h : InvPending B st id) (a : Addr) (ha : a ≠ "") :
+    InvPending B (setScopeValueOwner B st id a) id := by
   simp only [setScopeValueOwner, ha, if_false]
+  split
+  · exact h
   exact
   { h with
     keys := by
       obtain ⟨h1, h2, h3, h4, h5, h6, h7⟩ := h.keys
-      exact ⟨h1, h2, h3, h4, h5, h6, nodup_kput (key := (·.1)) (id, a) h7⟩
+      exact ⟨h1, h2, h3, h4, h5, h6, nodup_kput (key := (·.1)) (id, B a) h7⟩
     voScope := by
       intro p hp
       rcases mem_kput.mp hp with rfl | ⟨hp', _⟩
@@ -138,40 +152,40 @@ theorem pending_setVO {st : State} {id : UUID} (h : InvPending st id) (a : Addr)
 
 /-- `SetScope` preserves the invariant, also when the value owner / a NAV of the written scope
 was set just before -/
-theorem setScope_pending {st : State} (sc : Scope) (vo : String) (h : InvPending st sc.id) :
-    Inv (setScope st sc vo) := by
+theorem setScope_pending {st : State} (sc : Scope) (vo : String) (h : InvPending B st sc.id) :
+    Inv B (setScope B st sc vo) := by
   unfold setScope
   split
   · rename_i hvo
     exact writeScopeToState_pending sc (pending_setVO h vo hvo)
   · exact writeScopeToState_pending sc h
 
-theorem setScope_inv {st : State} (h : Inv st) (sc : Scope) (vo : String) : Inv (setScope st sc vo) :=
+theorem setScope_inv {st : State} (h : Inv B st) (sc : Scope) (vo : String) : Inv B (setScope B st sc vo) :=
   setScope_pending sc vo (inv_pending h sc.id)
 
 theorem setScopeValueOwner_frame (st : State) (id : UUID) (a : String) :
-    (setScopeValueOwner st id a).sessions = st.sessions ∧ (setScopeValueOwner st id a).scopes = st.scopes ∧
-    (setScopeValueOwner st id a).records = st.records := by
+    (setScopeValueOwner B st id a).sessions = st.sessions ∧ (setScopeValueOwner B st id a).scopes = st.scopes ∧
+    (setScopeValueOwner B st id a).records = st.records := by
   unfold setScopeValueOwner
   split
   · split <;> exact ⟨rfl, rfl, rfl⟩
-  · exact ⟨rfl, rfl, rfl⟩
+  · split <;> exact ⟨rfl, rfl, rfl⟩
 
 theorem setScope_frame (st : State) (sc : Scope) (vo : String) :
-    (setScope st sc vo).sessions = st.sessions ∧ (setScope st sc vo).scopes = kput (·.id) sc st.scopes ∧
-    (setScope st sc vo).records = st.records := by
+    (setScope B st sc vo).sessions = st.sessions ∧ (setScope B st sc vo).scopes = kput (·.id) sc st.scopes ∧
+    (setScope B st sc vo).records = st.records := by
   unfold setScope
   split
   · obtain ⟨h1, h2, h3⟩ := setScopeValueOwner_frame st sc.id vo
     refine ⟨?_, ?_, ?_⟩
-    · show (setScopeValueOwner st sc.id vo).sessions = _; exact h1
-    · show kput (·.id) sc (setScopeValueOwner st sc.id vo).scopes = _; rw [h2]
-    · show (setScopeValueOwner st sc.id vo).records = _; exact h3
+    · show (setScopeValueOwner B st sc.id vo).sessions = _; exact h1
+    · show kput (·.id) sc (setScopeValueOwner B st sc.id vo).scopes = _; rw [h2]
+    · show (setScopeValueOwner B st sc.id vo).records = _; exact h3
   · exact ⟨rfl, rfl, rfl⟩
 
 /-- scope ids only grow under `setScope`; sessions are untouched -/
 theorem setScope_sessionsHaveScope {st : State} (h : SessionsHaveScope st) (sc : Scope) (vo : String) :
-    SessionsHaveScope (setScope st sc vo) := by
+    SessionsHaveScope (setScope B st sc vo) := by
   obtain ⟨h1, h2, _⟩ := setScope_frame st sc vo
   intro x hx
   rw [h1] at hx
@@ -181,7 +195,7 @@ theorem setScope_sessionsHaveScope {st : State} (h : SessionsHaveScope st) (sc :
 
 /-! ### sessions and records -/
 
-theorem setSession_inv {st : State} (h : Inv st) (x : Session) : Inv (setSession st x) where
+theorem setSession_inv {st : State} (h : Inv B st) (x : Session) : Inv B (setSession st x) where
   keys := by
     obtain ⟨h1, h2, h3, h4, h5, h6, h7⟩ := h.keys
     exact ⟨h1, nodup_kput x h2, h3, h4, h5, h6, h7⟩
@@ -212,7 +226,7 @@ theorem sessionHasRecords_false {st : State} {id : SessionId} (hin : RecordsInSe
   simp only [sessionHasRecords, List.any_eq_false, decide_eq_true_eq, not_and] at h
   exact h r hr (by rw [← hin r hr, e]) e
 
-theorem removeSession_inv {st : State} (h : Inv st) (id : SessionId) : Inv (removeSession st id) := by
+theorem removeSession_inv {st : State} (h : Inv B st) (id : SessionId) : Inv B (removeSession st id) := by
   unfold removeSession
   split
   · exact h
@@ -279,8 +293,8 @@ theorem removeSession_sessionsHaveScope {st : State} (h : SessionsHaveScope st) 
   obtain ⟨y, hy, hyr⟩ := h x (hs.sessSub x hx)
   exact ⟨y, by rw [hs.scopes]; exact hy, hyr⟩
 
-theorem delRecord_inv {st : State} (h : Inv st) (rid : RecordId) :
-    Inv { st with records := kdel (·.id) rid st.records } where
+theorem delRecord_inv {st : State} (h : Inv B st) (rid : RecordId) :
+    Inv B { st with records := kdel (·.id) rid st.records } where
   keys := by
     obtain ⟨h1, h2, h3, h4, h5, h6, h7⟩ := h.keys
     exact ⟨h1, h2, nodup_kdel rid h3, h4, h5, h6, h7⟩
@@ -295,7 +309,7 @@ theorem delRecord_inv {st : State} (h : Inv st) (rid : RecordId) :
   voScope := h.voScope
   navScope := h.navScope
 
-theorem removeRecord_inv {st : State} (h : Inv st) (rid : RecordId) : Inv (removeRecord st rid) := by
+theorem removeRecord_inv {st : State} (h : Inv B st) (rid : RecordId) : Inv B (removeRecord st rid) := by
   unfold removeRecord
   split
   · exact h
@@ -327,7 +341,7 @@ theorem removeRecord_sessionsHaveScope {st : State} (h : SessionsHaveScope st) (
 /-- the record walk of `RemoveScope` -/
 def removeRecords (st : State) (recs : List Record) : State := recs.foldl (fun st r => removeRecord st r.id) st
 
-theorem removeRecords_inv {st : State} (h : Inv st) (recs : List Record) : Inv (removeRecords st recs) := by
+theorem removeRecords_inv {st : State} (h : Inv B st) (recs : List Record) : Inv B (removeRecords st recs) := by
   unfold removeRecords
   induction recs generalizing st with
   | nil => exact h
@@ -356,9 +370,9 @@ theorem removeRecords_sessionsHaveScope {st : State} (h : SessionsHaveScope st) 
   | nil => exact h
   | cons a t ih => exact ih (removeRecord_sessionsHaveScope h a.id)
 
-theorem setRecord_inv {st : State} (h : Inv st) (r : Record)
+theorem setRecord_inv {st : State} (h : Inv B st) (r : Record)
     (hs : ∃ x ∈ st.sessions, x.id = r.session) (hsc : ∃ sc ∈ st.scopes, sc.id = r.id.scope)
-    (hin : r.session.scope = r.id.scope) : Inv (setRecord st r) where
+    (hin : r.session.scope = r.id.scope) : Inv B (setRecord st r) where
   keys := by
     obtain ⟨h1, h2, h3, h4, h5, h6, h7⟩ := h.keys
     exact ⟨h1, h2, nodup_kput r h3, h4, h5, h6, h7⟩
